@@ -56,7 +56,7 @@ type Res struct {
 	Host    string      `json:"host,omitempty"`    // ts: spec.host
 }
 
-// Event: op is add | del | upd_vss | upd_tss | bdel_vs | bdel_ing | add_res | upd_cfg | restart.
+// Event: op is add | del | upd_vss | upd_tss | bdel_vs | bdel_ing | add_res | upd_cfg | upd_eps | restart.
 type Event struct {
 	Op   string      `json:"op"`
 	Res  *Res        `json:"res,omitempty"`  // add
@@ -118,6 +118,10 @@ type manager struct {
 
 // Reload replaces LocalManager.Reload (which shells out to the nginx binary and waits on a unix socket).
 func (m *manager) Reload(_ bool) error { m.reloads++; return nil }
+
+// the NGINX Plus API is not part of this property (no client exists here)
+func (m *manager) UpdateServersInPlus(_ string, _ []string, _ nginx.ServerConfig) error { return nil }
+func (m *manager) UpdateStreamServersInPlus(_ string, _ []string) error                 { return nil }
 
 func (m *manager) Start(_ chan error)                           {}
 func (m *manager) Quit()                                        {}
@@ -347,6 +351,19 @@ func (in *instance) apply(e Event) (errc string) {
 	case "upd_cfg":
 		_, err := in.cnf.UpdateConfig(extended(e.Adds))
 		return errClass(err)
+	case "upd_eps":
+		// endpoints of the services behind these resources changed: UpdateEndpoints* regenerate the files
+		x := extended(e.Adds)
+		if err := in.cnf.UpdateEndpoints(x.IngressExes); err != nil {
+			return "error"
+		}
+		if err := in.cnf.UpdateEndpointsMergeableIngress(x.MergeableIngresses); err != nil {
+			return "error"
+		}
+		if err := in.cnf.UpdateEndpointsForVirtualServers(x.VirtualServerExes); err != nil {
+			return "error"
+		}
+		return errClass(in.cnf.UpdateEndpointsForTransportServers(x.TransportServerExes))
 	}
 	return "badop"
 }
@@ -953,6 +970,9 @@ func (g *gen) event() Event {
 	case k < 94:
 		// AddOrUpdateResources: some served resources again (e.g. a Secret or Service they use changed), maybe updated
 		e := Event{Op: "add_res"}
+		if r.Chance(1, 2) {
+			e.Op = "upd_eps"
+		}
 		for _, x := range g.servedList() {
 			if r.Chance(1, 2) {
 				if r.Chance(1, 3) {
@@ -1105,7 +1125,7 @@ func believe(g *gen, evs []Event) {
 			g.setServed(*e.Res)
 		case "del":
 			g.unsetServed(e.Kind, e.NS, e.Name)
-		case "upd_vss", "upd_tss", "add_res", "upd_cfg":
+		case "upd_vss", "upd_tss", "add_res", "upd_cfg", "upd_eps":
 			for _, x := range e.Adds {
 				g.setServed(x)
 			}
